@@ -100,6 +100,9 @@ pub fn new_bind(w: &Rc<World>, lhs: usize, body: &BodySpec) {
         .borrow()
         .iter()
         .enumerate()
+        // (functions memoised inside a run of some bind are that run's business: another closure
+        // using them would need nodes of a bind that may not be necessary, relaxation R4)
+        .filter(|(_, m)| m.local.is_none())
         // a real clone of the memoised function, as a closure that owns one would hold
         .filter_map(|(i, m)| m.f.as_ref().map(|f| (i, Rc::new(std::cell::RefCell::new(f.borrow().clone_box())))))
         .collect();
@@ -308,21 +311,40 @@ fn build(cx: &Cx, e: &BodyExpr) -> (Incr<i64>, Hid) {
             }
             let (src_hid, src) = cx.cap.outers[0].clone();
             let weak = Rc::downgrade(w);
-            // memoised inside the closure: the table and its nodes belong to this run of the bind
-            let mut memo = st.weak_memoize_fn(move |key: i64| {
+            let m = w.memos.borrow().len();
+            let fresh_flag: Rc<std::cell::Cell<Option<Hid>>> = Rc::new(std::cell::Cell::new(None));
+            let ff = fresh_flag.clone();
+            let scope = cx.scope;
+            let hb = cx.hb;
+            let export = cx.export;
+            // memoised inside the closure: the table and its nodes belong to this run of the bind.
+            // The function is also handed to the driver, which may call it later from the top level.
+            let underlying = move |key: i64| -> Incr<i64> {
                 let w = weak.upgrade().expect("world gone");
                 let hid = w.next_hid();
                 let mut lg = logged(&w, hid, vec![]);
-                src.map(move |x: &i64| {
+                let n = src.map(move |x: &i64| {
                     let r = norm(*x + key);
                     lg(vec![MV::I(*x)], MV::I(r));
                     r
-                })
-            });
-            let key = (*k + l).rem_euclid(3);
-            let hid = w.next_hid();
-            let n = memo(key);
-            w.register(NodeH::I(n.clone()), RK::BMemo { src: src_hid, key }, Some(cx.scope), cx.export, false, cx.hb);
+                });
+                // (called from the closure: handed to the driver only if the bind exports its nodes;
+                // called from the top level later: the driver takes the handle, see exec MemoCall)
+                let keep = export && w.cur_ctx() != Ctx::Top;
+                w.register(NodeH::I(n.clone()), RK::BMemo { src: src_hid, key }, Some(scope), keep, false, hb);
+                w.memos.borrow_mut()[m].made.push((key, hid, n.weak()));
+                ff.set(Some(hid));
+                n
+            };
+            let shared = Rc::new(std::cell::RefCell::new(underlying));
+            let sh = shared.clone();
+            let memo = st.weak_memoize_fn(move |key: i64| (sh.borrow_mut())(key));
+            let boxed: Box<dyn MemoF> = Box::new(memo);
+            let f: MemoFn = Rc::new(std::cell::RefCell::new(boxed));
+            w.memos.borrow_mut().push(MemoEntry { f: Some(f.clone()), src: src_hid, made: vec![], fresh_flag, local: Some(scope) });
+            w.log(Ev::Act { ctx: w.cur_ctx(), act: Act::Memoize { m, src: src_hid } });
+            let (n, hid, fresh, prev_alive) = memo_call(w, m, &f, *k + l);
+            w.log(Ev::Act { ctx: w.cur_ctx(), act: Act::MemoCall { m, key: (*k + l).rem_euclid(3), hid, fresh, prev_alive } });
             if cx.export {
                 w.last_exported.set(Some(hid));
             }
